@@ -628,7 +628,9 @@ def filled_tree(schema, coll, item):
     from glotaran.parameter import Parameter
 
     key = item_key(coll, item)
-    spec = schema["by_key"][key]
+    spec = schema["by_key"].get(key)
+    if spec is None:      # an item of a class that does not belong to the collection the attribute refers to
+        return f"WRONGKIND:{enc(key)}"
     children, params = [], []
 
     def values(a, v):
@@ -688,6 +690,9 @@ def positions(schema, spec):
     return out
 
 
+RELABEL_SCHEMA = {"by_key": {}}   # set by systematic_mutations (the schema is needed to find the references to re-point)
+
+
 def apply_mutation(spec, params_removed, mut):
     """mutates `spec` (a deep copy) in place; returns the oracle's expectations:
        list of canonical issues that MUST be reported"""
@@ -713,6 +718,31 @@ def apply_mutation(spec, params_removed, mut):
     elif kind == "set":
         _, coll, ident, attr, value = mut
         spec[coll][ident][attr] = value
+    elif kind == "relabel":
+        # an item gets the label of an item of ANOTHER collection (labels are unique per collection only); every reference
+        # to it follows, so the model stays valid
+        _, coll, old, new = mut
+        items = spec[coll]
+        spec[coll] = {(new if k == old else k): v for k, v in items.items()}
+        if "label" in spec[coll][new]:
+            spec[coll][new]["label"] = new
+        for c2, its in spec.items():
+            seq = its.values() if isinstance(its, dict) else its
+            for d in seq:
+                key = f"{c2}/{d['type']}" if "type" in d else f"{c2}/"
+                sp = RELABEL_SCHEMA["by_key"].get(key)
+                if sp is None:
+                    continue
+                for a in sp["attrs"]:
+                    if a["kind"] != "item" or a.get("coll") != coll or a["name"] not in d or d[a["name"]] is None:
+                        continue
+                    v = d[a["name"]]
+                    if a["struct"] == "scalar":
+                        d[a["name"]] = new if v == old else v
+                    elif a["struct"] == "list":
+                        d[a["name"]] = [new if x == old else x for x in v]
+                    else:
+                        d[a["name"]] = {k: (new if x == old else x) for k, x in v.items()}
     else:
         raise core.HarnessError(f"unknown mutation {mut!r}")
 
@@ -798,6 +828,15 @@ def systematic_mutations(schema, sc):
         if isinstance(items, dict) and coll not in ("dataset", "dataset_groups"):
             for label in items:
                 muts.append([("undefine", coll, label)])
+    # the same label for items of different collections (round-2 seeded change C20-4: a fill memo keyed by label only)
+    RELABEL_SCHEMA["by_key"] = schema["by_key"]
+    mc_labels = list(spec.get("megacomplex", {}))
+    for coll, items in spec.items():
+        if isinstance(items, dict) and coll not in ("dataset", "dataset_groups", "megacomplex") and mc_labels:
+            for label in items:
+                target = next((x for x in mc_labels if x not in items), None)
+                if target is not None:
+                    muts.append([("relabel", coll, label, target)])
     for p in all_param_labels(sc["params"]):
         muts.append([("rmparam", p)])
     for dlabel, d in spec["dataset"].items():
@@ -931,6 +970,9 @@ def run_case(ck, schema, scen_name, sc, muts, evaluate=False):
         ck.count("fill:" + r.split(" ")[0] + ("-" + r.split(" ")[1] if r.startswith("err") else ""))
         if valid_now[0] == "ok" and not valid_now[1] and not r.startswith("ok ["):
             ck.violation("valid-model-does-not-fill", f"model validates but fill_item(dataset {dlabel!r}) gives {r}", case)
+        elif "WRONGKIND:" in r:
+            ck.violation("filled-reference-of-wrong-kind", f"fill_item(dataset {dlabel!r}) put an item of another collection into a "
+                         f"reference attribute (labels are unique per collection only): {r[:200]}", case)
 
     info = {"model": model, "ps": ps, "valid": valid_now[0] == "ok" and not valid_now[1], "case": case,
             "refs": sum(len(v) if isinstance(v, (list, dict)) else 1 for items in mirror.values() for _, _, vals in items
